@@ -18,12 +18,13 @@ from __future__ import annotations
 
 import ast
 import math
+from fractions import Fraction
 
 from optilint.model import dotted, FuncVal, ExtVal
 from optilint.core import Incomplete
 from optilint.expr import Algebra, NotPolynomial, feval
 from .common import src, same, calls_in, const_value
-from . import tensorid
+from . import tensorid, eigenalg
 
 LEVEL = "other"
 RULE_TEXT = "obligations = (helper x polynomial identity) + (eigen-solver statement role) + (custom_jvp function x wiring clause) + relative-difference identities"
@@ -40,6 +41,7 @@ def run(ctx):
     ctx.need_module("optimism.Math")
     tensorid.run_identities(ctx, "O1/T7-helper-identities")
     o2(ctx)
+    eigenalg.run(ctx, "O2/T7-eigen-solver-algebra", f"{TM}:eigen_sym33_non_unit")
     jvp_wiring(ctx, "O3/T5-custom-jvp-wiring")
     relative_differences(ctx)
     ctx.trust("jax.custom_jvp protocol: rule(primals, tangents) -> (primal_out, tangent_out)")
@@ -180,19 +182,72 @@ def jvp_wiring(ctx, rule):
                                       f"`{src(helper[0].args[0]) if helper else '?'}`")
     if n < 5:
         raise Incomplete(f"{n} custom_jvp functions found (5 expected)")
-    # helper: degenerate fallback uses the derivative of func, h multiplies W = V^T sym(Cdot) V elementwise
+    helper_rules(ctx, rule)
+
+
+def helper_rules(ctx, rule):
+    """The shared tangent helper, interpreted on generic symbolic data: eigenvalues l0..l2, a generic matrix V in place of the
+    eigenvectors, a generic tangent, f(x) = x^3 with exact divided difference x^2+xy+y^2.  The result must be the Daleckii-Krein
+    form V (h o (V^T sym(Cdot) V)) V^T with h_ii = f'(l_i), h_ij = divided difference (distinct) or f' (equal eigenvalues)."""
+    from optilint.tensoreval import Interp, Dual, Arr, PyFunc, EvalError, Raised, matmul, _A
+    from . import materials as mt
     h = ctx.need(f"{TM}:_symmetric_matrix_function_jvp_helper")
-    rd = [c for c in h.children if c.kind == "function" and c.name == "rd"]
+    mod = ctx.need_module(TM)
+    hp = h.params()
+    # 1. exact-equality switch (accepted idiom: where(a == b, f'(a), reldiff(a, b_safe)) on the two arguments of the nested function)
+    nested = [c for c in h.children if c.kind == "function" and any(isinstance(n, ast.Name) and n.id == hp[1] for n in ast.walk(c.node))]
     ok = False
-    if rd:
-        rr = rd[0].returns()
-        ok = len(rr) == 1 and same(rr[0], "np.where(x2 == x1, df(x1), relative_difference(x1, x2_safe))")
-    ctx.decide(rule, ok, h, None, construct="helper:degenerate-fallback-is-derivative", detail="rd(x1,x2) = where(x2==x1, f'(x1), reldiff(x1, x2_safe))",
-               bad_detail="the divided difference does not fall back to the derivative at equal eigenvalues")
-    txt = src(h.node)
-    ok = "W = V.T @ sym(Cdot) @ V" in txt and "h *= W" in txt and "df = jax.jacfwd(func)" in txt and "h_diag = jax.vmap(df)(lam)" in txt
-    ctx.decide(rule, ok, h, None, construct="helper:daleckii-krein-structure", detail="h (divided differences) * (V^T sym(Cdot) V), diagonal from f'",
-               bad_detail="the JVP helper no longer has the Daleckii-Krein structure h o (V^T sym(Cdot) V) with f' on the diagonal")
+    shown = "?"
+    if len(nested) == 1:
+        rd = nested[0]
+        ps = rd.params()
+        rr = rd.returns()
+        if len(rr) == 1 and isinstance(rr[0], ast.Call) and (dotted(rr[0].func) or "").split(".")[-1] in ("where", "if_then_else") and len(rr[0].args) == 3:
+            cond, a, b = rr[0].args
+            shown = src(cond)
+            ok = isinstance(cond, ast.Compare) and len(cond.ops) == 1 and isinstance(cond.ops[0], ast.Eq) and \
+                {src(cond.left), src(cond.comparators[0])} == set(ps) and \
+                any(isinstance(n, ast.Name) and n.id == hp[1] for n in ast.walk(b)) and not any(isinstance(n, ast.Name) and n.id == hp[1] for n in ast.walk(a))
+    ctx.decide(rule, ok, h, nested[0].node if nested else None, construct="helper:degenerate-fallback-is-derivative",
+               detail="where(a == b, f'(a), reldiff(a, b_safe)): exact equality selects the derivative",
+               bad_detail=f"the divided difference does not fall back to the derivative exactly at equal eigenvalues (switch condition `{shown}`; "
+                          f"the relative-difference formulas are exact for every non-zero gap, so any other switch replaces them by f' where they differ)")
+    # 2. assembly, by interpretation
+    V = tensorid.generic("v")
+    Cd = tensorid.generic("c")
+    cube = PyFunc("cube", lambda it, a, k: (lambda x: x * x * x)(it.num(a[0])))
+    dd = PyFunc("dd", lambda it, a, k: (lambda x, y: x * x + x * y + y * y)(it.num(a[0]), it.num(a[1])))
+    three = Dual(3)
+
+    def expected(l):
+        hh = [[None] * 3 for _ in range(3)]
+        for i_ in range(3):
+            for j_ in range(3):
+                if i_ == j_ or _A.equal(l[i_].a, l[j_].a):
+                    hh[i_][j_] = three * l[i_] * l[i_]
+                else:
+                    hh[i_][j_] = l[i_] * l[i_] + l[i_] * l[j_] + l[j_] * l[j_]
+        S = Cd.zip(Cd.T(), lambda x, y: (x + y) * Dual(Fraction(1, 2)))
+        W = matmul(matmul(V.T(), S), V)
+        HW = Arr([hh[i_][j_] * W.data[i_ * 3 + j_] for i_ in range(3) for j_ in range(3)], (3, 3))
+        return matmul(matmul(V, HW), V.T())
+    cases = [("distinct", ("l0", "l1", "l2")), ("double", ("l0", "l0", "l2")), ("triple", ("l0", "l0", "l0"))]
+    for cname, names in cases:
+        lam = [Dual(_A.atom(n)) for n in names]
+        I = mt.make_interp(ctx.repo)
+        I.special[f"{TM}:eigen_sym33_unit"] = lambda interp, args, kw, lam=lam: (Arr(list(lam), (3,)), V)
+        I.policy = False     # symbols with different names denote different eigenvalues
+        try:
+            out = I.call(I.module_value(mod, h.name), [cube, dd, (Cd,), (Cd,)], {})
+            want = expected(lam)
+            bad = [(i_, j_) for i_ in range(3) for j_ in range(3) if not _A.equal(out.data[i_ * 3 + j_].a, want.data[i_ * 3 + j_].a)] \
+                if isinstance(out, Arr) and out.shape == (3, 3) else "shape"
+            ctx.decide(rule, not bad, h, None, construct=f"helper:daleckii-krein-assembly:{cname}",
+                       detail=f"tangent == V (h o V^T sym(Cdot) V) V^T for generic V, Cdot and {cname} eigenvalues (f = x^3)",
+                       bad_detail=f"for {cname} eigenvalues the tangent differs from V (h o V^T sym(Cdot) V) V^T in entries {bad} "
+                                  f"(generic V, generic Cdot, f(x) = x^3 with its exact divided difference)")
+        except (EvalError, Raised, KeyError, IndexError, TypeError, ZeroDivisionError, AttributeError) as ex:
+            ctx.undecided(rule, h, None, construct=f"helper:daleckii-krein-assembly:{cname}", detail=f"cannot interpret the helper on generic data: {ex}")
 
 
 def relative_differences(ctx):
@@ -274,5 +329,25 @@ def variants(repo):
         Variant("no derivative fallback", T, sub("        return np.where(x2 == x1, df(x1), relative_difference(x1, x2_safe))", "        return relative_difference(x1, x2_safe)"), "O3/T5-custom-jvp-wiring"),
         Variant("sqrt relative difference", T, sub("    return 1/(np.sqrt(lam1) + np.sqrt(lam2))", "    return 1/(np.sqrt(lam1) - np.sqrt(lam2))"), "O3/T7-relative-differences"),
         Variant("exp relative difference", T, sub("    return np.exp(lam2)*np.expm1(arg)/arg", "    return np.exp(lam1)*np.expm1(arg)/arg"), "O3/T7-relative-differences"),
+        Variant("tangent entry index slip", T, sub("    t12 = 0.5*(V[1].T@h@V[2] + V[2].T@h@V[1])", "    t12 = 0.5*(V[1].T@h@V[2] + V[2].T@h@V[0])"), "O3/T5-custom-jvp-wiring"),
+        Variant("tangent rotated the wrong way", T, sub("    W = V.T@sym(Cdot)@V", "    W = V@sym(Cdot)@V.T"), "O3/T5-custom-jvp-wiring"),
+        # equivalent program: h is symmetric and the assembled entries are symmetrised again, so sym() of the tangent is redundant
+        Variant("tangent symmetrised only at assembly (equivalent)", T, sub("    W = V.T@sym(Cdot)@V", "    W = V.T@Cdot@V"), None),
+        Variant("divided difference pair mixed up", T, sub("    h31 = rd(lam[2], lam[0])", "    h31 = rd(lam[2], lam[1])"), "O3/T5-custom-jvp-wiring"),
+        Variant("fallback switch with tolerance", T, sub("        return np.where(x2 == x1, df(x1), relative_difference(x1, x2_safe))", "        return np.where(np.isclose(x1, x2), df(x1), relative_difference(x1, x2_safe))"), "O3/T5-custom-jvp-wiring"),
+        Variant("alpha-rename jvp helper", T, alpha_rename("_symmetric_matrix_function_jvp_helper"), None),
+        Variant("spherical threshold linear in the mean", T, sub("    c2tol = (c1*c1)*(-1.0e-30)", "    c2tol = c1*(-1.0e-30)"), "O2/T7-eigen-solver-algebra"),
+        Variant("spherical threshold positive", T, sub("    c2tol = (c1*c1)*(-1.0e-30)", "    c2tol = (c1*c1)*(1.0e-30)"), "O2/T7-eigen-solver-algebra"),
+        Variant("shift sign can be zero", T, sub("*np.where(b >= 0.0, 1.0, -1.0)", "*np.sign(b)"), "O2/T7-eigen-solver-algebra"),
+        Variant("second invariant sign slip", T, sub("    c2 = cxx_cyy + cyy*czz + czz*cxx - cxy_cxy - cyz_cyz - czx_czx", "    c2 = cxx_cyy + cyy*czz + czz*cxx - cxy_cxy - cyz_cyz + czx_czx"), "O2/T7-eigen-solver-algebra"),
+        Variant("third invariant term", T, sub("    c3 = cxx*cyz_cyz + cyy*czx_czx - 2.0*cxy*cyz*czx", "    c3 = cxx*cyz_cyz + cyy*czx_czx - 1.0*cxy*cyz*czx"), "O2/T7-eigen-solver-algebra"),
+        Variant("cubic argument sign", T, sub("    rr = -0.5*c3*ThreeOverA*sqrtThreeOverA", "    rr = 0.5*c3*ThreeOverA*sqrtThreeOverA"), "O2/T7-eigen-solver-algebra"),
+        Variant("mean over two", T, sub("    c1 = (cxx + cyy + czz)/(3.0)", "    c1 = (cxx + cyy + czz)/(2.0)"), "O2/T7-eigen-solver-algebra"),
+        Variant("largest root without sign", T, sub("    two_cos_thd3 = 2.0*cos_thd3*np.sign(rr)", "    two_cos_thd3 = 2.0*cos_thd3"), "O2/T7-eigen-solver-algebra"),
+        Variant("mean not added back to one root", T, sub("    eval1 = eval1 + c1\n", "    eval1 = eval1\n"), "O2/T7-eigen-solver-algebra"),
+        Variant("second root from wrong sum", T, sub("    eval1 = rm2xx + rm2yy - eval0", "    eval1 = rm2xx - rm2yy - eval0"), "O2/T7-eigen-solver-algebra"),
+        Variant("spherical branch returns zero", T, sub("    eval0 = if_then_else(c2lsmall_neg, eval0, c1)", "    eval0 = if_then_else(c2lsmall_neg, eval0, 0.0)"), "O2/T7-eigen-solver-algebra"),
+        Variant("spherical vectors repeated", T, sub("    evec1 = if_then_else(c2lsmall_neg, evec1, np.array([0.0, 1.0, 0.0]))", "    evec1 = if_then_else(c2lsmall_neg, evec1, np.array([1.0, 0.0, 0.0]))"), "O2/T7-eigen-solver-algebra"),
+        Variant("alpha-rename eigen_sym33_non_unit", T, alpha_rename("eigen_sym33_non_unit"), None),
         Variant("reformat", T, reformat(), None),
     ]
